@@ -321,6 +321,11 @@ def enumerate_variant(run, model, exe, variant, scen_list, pairs, stats, env=Non
                           no_input=True)
             continue
         if c1["sites"] != c2["sites"] or c1["res"] != c2["res"] or c1["trace"] != c2["trace"]:
+            # once more before anything is reported (a loaded machine must not be able to raise this)
+            out = run_chunks(exe, ["fa %s 0 0 S" % sc, "fa %s 0 0 S" % sc], env=env, jobs=1)
+            c1, c2 = parse_result(out[0]), parse_result(out[1])
+            run.hist("stability_retries", "clean runs of %s differed once" % sc)
+        if c1["sites"] != c2["sites"] or c1["res"] != c2["res"] or c1["trace"] != c2["trace"]:
             run.violation("scenario %s is not deterministic: two clean runs differ" % sc,
                           "run1: %s\nrun2: %s\n" % (out[0][:3000], out[1][:3000]),
                           tag="nondet_%s_%s" % (variant, sc), no_input=True)
@@ -377,8 +382,19 @@ def enumerate_variant(run, model, exe, variant, scen_list, pairs, stats, env=Non
             if k2 == 0 and notices and k1 <= N:
                 want = sites[k1 - 1].split(":")
                 got = notices[0]
-                if (want[0], int(want[1]), int(want[2]), want[3]) != \
-                        (got["op"], got["type"], got["size"], got["bt"][0] if got["bt"] else "?"):
+                def same(w, g):
+                    return (w[0], int(w[1]), int(w[2]), w[3]) == \
+                        (g["op"], g["type"], g["size"], g["bt"][0] if g["bt"] else "?")
+                if not same(want, got):
+                    # run the clean run and this case once more, back to back, before reporting
+                    ro = run_chunks(exe, ["fa %s 0 0 S" % sc, ln], env=env, jobs=1)
+                    rc, rd = parse_result(ro[0]), parse_result(ro[1])
+                    rsites = rc["sites"].split(",") if rc["sites"] not in ("-", "?") else []
+                    rn = parse_notice(rd["site"])
+                    run.hist("stability_retries", "attempt of %s compared twice" % sc)
+                    if rn and k1 <= len(rsites):
+                        want, got = rsites[k1 - 1].split(":"), rn[0]
+                if not same(want, got):
                     run.violation("replay not stable: attempt %d of scenario %s is %s in the clean run "
                                   "but %s:%d:%d in the faulted run" % (k1, sc, sites[k1 - 1], got["op"],
                                                                       got["type"], got["size"]),
